@@ -96,7 +96,7 @@ class BuiltinMixin:
         if rest is not None:
             a, b = self.split(rest, V.is_obj(v))
             if a is not None:
-                raise Unsupported('len() of an object')
+                self.unsupported(a, 'len() of an object')
             out.extend(exc(b, 'TypeError'))
         return out
 
@@ -105,7 +105,7 @@ class BuiltinMixin:
         if isinstance(v, Static):
             raise Unsupported('str(static)')
         out = []
-        x, rest = self.split(st, V.is_str(v))
+        x, rest = self.split(st, V.is_str(v), strong=True)
         if x is not None:
             out.append((x, 'ok', v))
         if rest is None:
@@ -117,7 +117,7 @@ class BuiltinMixin:
             if not subs:
                 continue
             cond = z3.And(V.is_obj(v), z3.Or([clsof(V.ref(v)) == self.cid(k) for k in subs]))
-            x, rest2 = self.split(rest2, cond)
+            x, rest2 = self.split(rest2, cond, strong=True)
             if x is not None:
                 out.extend(self.call_method(x, v, c, '__str__', [], {}))
             if rest2 is None:
@@ -171,8 +171,11 @@ class BuiltinMixin:
 
     def b_type(self, n, st):
         def f(s, p, k):
-            return self.apply_contract(s, self.contracts.get('$type'), p, k) if self.contracts.get('$type') \
-                else ok(s, self.fresh('type'))
+            if isinstance(p[0], Static):
+                raise Unsupported('type(static)')
+            t = self.alloc(s, '$Type')
+            self.set(s, t, '$of', p[0])
+            return ok(s, t)
         return self._args(n, st, f)
 
     def b_print(self, n, st):
@@ -407,7 +410,7 @@ class BuiltinMixin:
         if b is not None:
             x, y = self.split(b, V.is_list(recv))
             if x is not None:
-                raise Unsupported('in-place mutation of an immutable list value (needs a list object precondition)')
+                self.unsupported(x, 'in-place mutation of an immutable list value (needs a list object precondition)')
             if y is not None:
                 out.extend(exc(y, 'AttributeError'))
         return out
@@ -470,7 +473,7 @@ class BuiltinMixin:
         if b is not None:
             x, y = self.split(b, z3.And(V.is_obj(recv), self.stubs.mapping_like(self, recv)))
             if x is not None:
-                raise Unsupported('mapping method on abstract mapping')
+                self.unsupported(x, 'mapping method on abstract mapping')
             if y is not None:
                 out.extend(exc(y, 'AttributeError'))
         return out
@@ -513,7 +516,7 @@ class BuiltinMixin:
         if b is not None:
             x, y = self.split(b, V.is_dict(recv))
             if x is not None:
-                raise Unsupported('item assignment on an immutable dict value')
+                self.unsupported(x, 'item assignment on an immutable dict value')
             x2, y2 = self.split(y, z3.And(V.is_obj(recv), self.stubs.mapping_like(self, recv)))
             if x2 is not None:
                 out.extend(self.stubs.mapping_setitem(self, x2, recv, k, v))
@@ -531,7 +534,7 @@ class BuiltinMixin:
             if not z3.is_true(z3.simplify(V.is_obj(recv))):
                 a, b = self.split(hit, V.is_obj(recv))
                 if b is not None:
-                    raise Unsupported('pop on immutable dict value')
+                    self.unsupported(b, 'pop on immutable dict value')
                 hit = a
             if hit is not None:
                 self.wf_load(hit, v)
@@ -594,7 +597,7 @@ class BuiltinMixin:
     def m_add(self, st, recv, pos, kw):
         a, b = self.split(st, z3.And(V.is_obj(recv), self.isinst_ref(V.ref(recv), 'set')))
         if b is not None:
-            raise Unsupported('add on non-set')
+            self.unsupported(b, 'add on non-set')
         a.assume(V.is_str(pos[0]))
         self.set(a, recv, '$val', V.sset(z3.Store(self.set_of(a, recv), V.s(pos[0]), True)))
         return ok(a, NONE)
@@ -610,7 +613,7 @@ class BuiltinMixin:
         if x is not None:
             out.append((x, 'ok', self.new_dict(x, self.map_of(x, recv))))
         if rest is not None:
-            raise Unsupported('copy of non-container')
+            self.unsupported(rest, 'copy of non-container')
         return out
 
     # ------------------------------------------------------------------ iteration sources
